@@ -3,14 +3,25 @@
 //!
 //! Determinism: the service reads its messages from a bounded channel of capacity 2 and handles
 //! one message completely before it receives the next.  After every message of the history the
-//! harness sends three no-op messages (`Unlock` of a room that is never requested): the third send
-//! can only complete once the first no-op has been received, i.e. after the message before it has
-//! been handled completely.  All grants of that message are then already in the (unbounded) reply
+//! harness sends eight no-op messages (`Unlock` of a room that is never requested): a send into a
+//! full channel only completes once a message has been received, so after capacity + 1 no-ops the
+//! message before them has been handled completely (capacity < 8: checked from the source by
+//! tools/extract_c20_conn.py + C20_conn_code_as_modelled).  All grants of that message are then already in the (unbounded) reply
 //! channels; they are drained channel by channel.  No sleeps, no timeouts.
+use discret::verif_hooks::configuration::Configuration;
+use discret::verif_hooks::database::graph_database::GraphDatabaseService;
+use discret::verif_hooks::discret_mod::DiscretServices;
+use discret::verif_hooks::event_service::EventService;
+use discret::verif_hooks::peer_connection_service::{PeerConnectionMessage, PeerConnectionService};
+use discret::verif_hooks::security::random32;
+use discret::verif_hooks::signature_verification_service::SignatureVerificationService;
+use discret::verif_hooks::synchronisation::peer_inbound_service::{LocalPeerService, QueryService};
 use discret::verif_hooks::synchronisation::room_locking_service::RoomLockService;
+use discret::verif_hooks::synchronisation::{Answer, Error as SyncError, Query, QueryProtocol};
 use serde_json::json;
 use std::collections::{BTreeMap, HashSet, VecDeque};
-use tokio::sync::mpsc;
+use std::sync::Arc;
+use tokio::sync::{mpsc, Mutex};
 use vharness::common::*;
 
 type Uid = [u8; 16];
@@ -38,7 +49,7 @@ struct Sim {
 }
 impl Sim {
     fn new(max: usize) -> Sim { Sim { svc: RoomLockService::start(max), rx: BTreeMap::new(), tx: BTreeMap::new(), dead: HashSet::new() } }
-    async fn quiesce(&self) { for _ in 0..0 { self.svc.unlock(uid_of(NOOP_ROOM)).await; } }
+    async fn quiesce(&self) { for _ in 0..8 { self.svc.unlock(uid_of(NOOP_ROOM)).await; } }
     /// sends one message of the history, waits until it has been handled, returns its grants
     async fn apply(&mut self, m: &Msg) -> Vec<(u64, u64, u64)> {
         match m {
@@ -152,6 +163,206 @@ async fn run_random(rng: &mut Rng, adversarial: bool) -> Case {
     mk_case(if adversarial { "random-any-release" } else { "random-holder-release" }, max, &tr, &gss, &book)
 }
 
+
+// ================================================================================================
+// connection level: the real process_acquired_room (through the verif hook) and the real cleanup on
+// top of the real lock service.  The harness plays (a) the select! loop of LocalPeerService::start
+// as far as locks are concerned: it takes the oldest grant out of the lock channel and calls
+// process_acquired_room; at the end of the connection it reads acquired_lock, calls cleanup and
+// drops the receiver; (b) the remote end of the room pull: every room task starts with
+// Query::RoomDefinition(room); the harness withholds the answer for as long as the task is to stay
+// in flight and answers with an error to let it end (every exit path of the task unlocks).
+// ================================================================================================
+#[derive(Clone, Debug, PartialEq)]
+enum CEv { Request(u64, Vec<u64>), Take(u64), Finish(u64, u64), End(u64) }
+impl CEv {
+    fn coq(&self) -> String {
+        match self {
+            CEv::Request(c, rooms) => format!("CRequest {} {}", gn(*c), glist(&rooms.iter().map(|r| gn(*r)).collect::<Vec<_>>())),
+            CEv::Take(c) => format!("CTake {}", gn(*c)),
+            CEv::Finish(c, r) => format!("CFinish {} {}", gn(*c), gn(*r)),
+            CEv::End(c) => format!("CEnd {}", gn(*c)),
+        }
+    }
+}
+struct Shared { services: DiscretServices, peers: PeerConnectionService, _peer_rx: mpsc::Receiver<PeerConnectionMessage>, path: std::path::PathBuf }
+async fn shared() -> Shared {
+    let path: std::path::PathBuf = format!("{}/C20/inst", std::env::var("VERIF_WORK").unwrap_or("/verif/work".into())).into();
+    let _ = std::fs::remove_dir_all(&path);
+    std::fs::create_dir_all(&path).unwrap();
+    let events = EventService::new();
+    let (db, _, _) = GraphDatabaseService::start("c20", "ns { Person{ name:String } }", &random32(), &random32(), path.clone(), &Configuration::default(), events.clone()).await.unwrap();
+    let (sender, rx) = mpsc::channel::<PeerConnectionMessage>(64);
+    Shared { services: DiscretServices { events, database: db, signature_verification: SignatureVerificationService::start(1) }, peers: PeerConnectionService { sender }, _peer_rx: rx, path }
+}
+struct ConnState {
+    tx: mpsc::UnboundedSender<Uid>, rx: Option<mpsc::UnboundedReceiver<Uid>>, inbox: VecDeque<u64>,
+    acquired: Arc<Mutex<HashSet<Uid>>>, qs: QueryService, q_rx: mpsc::Receiver<QueryProtocol>, a_tx: mpsc::Sender<Answer>,
+    running: Vec<(u64, u64)>,   // (room, id of the withheld query)
+    ended: bool,
+}
+struct ConnSim { svc: RoomLockService, conns: BTreeMap<u64, ConnState>, broken: bool }
+impl ConnSim {
+    fn new(max: usize) -> ConnSim { ConnSim { svc: RoomLockService::start(max), conns: BTreeMap::new(), broken: false } }
+    fn conn(&mut self, c: u64) -> &mut ConnState {
+        self.conns.entry(c).or_insert_with(|| {
+            let (tx, rx) = mpsc::unbounded_channel::<Uid>();
+            let (q_tx, q_rx) = mpsc::channel::<QueryProtocol>(64);
+            let (a_tx, a_rx) = mpsc::channel::<Answer>(64);
+            ConnState { tx, rx: Some(rx), inbox: VecDeque::new(), acquired: Arc::new(Mutex::new(HashSet::new())), qs: QueryService::start(q_tx, a_rx), q_rx, a_tx, running: vec![], ended: false }
+        })
+    }
+    async fn quiesce(&self) { for _ in 0..8 { self.svc.unlock(uid_of(NOOP_ROOM)).await; } }
+    fn drain(&mut self) -> Vec<(u64, u64, u64)> {
+        let mut g = vec![];
+        for (c, st) in self.conns.iter_mut() {
+            if let Some(rx) = st.rx.as_mut() { while let Ok(room) = rx.try_recv() { let r = room_index(&room); st.inbox.push_back(r); g.push((*c, 0, r)); } }
+        }
+        g
+    }
+    async fn apply(&mut self, sh: &Shared, e: &CEv) -> Vec<(u64, u64, u64)> {
+        let mut end_of: Option<u64> = None;
+        match e {
+            CEv::Request(c, rooms) => {
+                let svc = self.svc.clone();
+                let st = self.conn(*c);
+                if !st.ended { svc.request_locks(circuit(*c), rooms.iter().map(|r| uid_of(*r)).collect(), st.tx.clone()).await; }
+            }
+            CEv::Take(c) => {
+                let svc = self.svc.clone();
+                let st = self.conn(*c);
+                if !st.ended {
+                    if let Some(r) = st.inbox.pop_front() {
+                        LocalPeerService::verif_process_acquired_room(uid_of(r), st.acquired.clone(), st.qs.clone(), svc, sh.peers.clone(), &sh.services).await.unwrap();
+                        // the task inserts the room into acquired_lock, then asks the remote for the room definition
+                        match tokio::time::timeout(std::time::Duration::from_secs(3), st.q_rx.recv()).await {
+                            Ok(Some(QueryProtocol { id, query: Query::RoomDefinition(room) })) if room == uid_of(r) => st.running.push((r, id)),
+                            _ => self.broken = true,
+                        }
+                    }
+                }
+            }
+            CEv::Finish(c, r) => {
+                let st = self.conn(*c);
+                if let Some(pos) = st.running.iter().position(|x| x.0 == *r) {
+                    let (_, id) = st.running.remove(pos);
+                    let before = Arc::strong_count(&st.acquired);
+                    let _ = st.a_tx.send(Answer { id, success: false, complete: true, serialized: bincode::serialize(&SyncError::Authorisation("withheld".into())).unwrap() }).await;
+                    // the task ends (unlock, then acquired_lock.remove) and drops its handle on acquired_lock
+                    let mut ok = false;
+                    for _ in 0..4000 { if Arc::strong_count(&st.acquired) < before { ok = true; break; } tokio::time::sleep(std::time::Duration::from_micros(500)).await; }
+                    if !ok { self.broken = true; }
+                }
+            }
+            CEv::End(c) => {
+                let svc = self.svc.clone();
+                let st = self.conn(*c);
+                if !st.ended {
+                    // LocalPeerService::start after its loop: cleanup(acquired_lock), then the receiver is dropped
+                    let mut rooms: Vec<Uid> = st.acquired.lock().await.iter().cloned().collect();
+                    rooms.sort_by_key(|u| room_index(u));
+                    LocalPeerService::cleanup(&svc, rooms).await;
+                    // the receiver lives until the end of the connection task (after cleanup and the disconnect
+                    // notification): the schedule chosen here lets the service handle the unlocks first, so a room
+                    // re-granted to this very connection lands in the channel that is about to be dropped
+                    for _ in 0..8 { svc.unlock(uid_of(NOOP_ROOM)).await; }
+                    end_of = Some(*c);
+                }
+            }
+        }
+        let mut g = vec![];
+        if let Some(c) = end_of {
+            g = self.drain();
+            let st = self.conn(c);
+            st.rx = None;
+            st.ended = true;
+        }
+        self.quiesce().await;
+        g.extend(self.drain());
+        g.sort_by_key(|x| (x.0, x.1));
+        g
+    }
+    fn tasks(&self) -> Vec<(u64, u64)> {
+        let mut t: Vec<(u64, u64)> = self.conns.iter().flat_map(|(c, st)| st.running.iter().map(|x| (*c, x.0)).collect::<Vec<_>>()).collect();
+        t.sort(); t
+    }
+    /// lets every task that is still in flight end (not part of the observation)
+    async fn shutdown(&mut self) {
+        for (_, st) in self.conns.iter_mut() {
+            for (_, id) in st.running.drain(..) {
+                let _ = st.a_tx.send(Answer { id, success: false, complete: true, serialized: bincode::serialize(&SyncError::Authorisation("end".into())).unwrap() }).await;
+            }
+        }
+    }
+}
+#[derive(Default)]
+struct CStats { grants: usize, takes: usize, finishes: usize, ends: usize, end_with_task: usize, end_with_inbox: usize, two_tasks_one_room: bool, max_tasks: usize }
+async fn conn_event(sim: &mut ConnSim, sh: &Shared, e: &CEv, obs: &mut Vec<i64>, st: &mut CStats) {
+    if let CEv::End(c) = e { let cs = sim.conn(*c); if !cs.ended { st.ends += 1; if !cs.running.is_empty() { st.end_with_task += 1; } if !cs.inbox.is_empty() { st.end_with_inbox += 1; } } }
+    let before = sim.tasks().len();
+    let g = sim.apply(sh, e).await;
+    let t = sim.tasks();
+    if let CEv::Take(_) = e { if t.len() > before { st.takes += 1; } }
+    if let CEv::Finish(_, _) = e { if t.len() < before { st.finishes += 1; } }
+    st.grants += g.len(); st.max_tasks = st.max_tasks.max(t.len());
+    let mut rooms: Vec<u64> = t.iter().map(|x| x.1).collect(); rooms.sort(); let n = rooms.len(); rooms.dedup(); if rooms.len() < n { st.two_tasks_one_room = true; }
+    obs.push(g.len() as i64); for (c, k, r) in &g { obs.push(*c as i64); obs.push(*k as i64); obs.push(*r as i64); }
+    obs.push(t.len() as i64); for (c, r) in &t { obs.push(*c as i64); obs.push(*r as i64); }
+}
+fn conn_case(kind: &str, max: usize, evs: &[CEv], obs: Vec<i64>, st: &CStats, broken: bool) -> Case {
+    Case { kind: kind.into(), coq: format!("CConn {}%nat {}", max, glist(&evs.iter().map(|e| e.coq()).collect::<Vec<_>>())), obs,
+           meta: json!({"max": max, "events": evs.len(), "grants": st.grants, "takes": st.takes, "finishes": st.finishes, "ends": st.ends,
+                        "end_with_running_task": st.end_with_task, "end_with_waiting_grant": st.end_with_inbox, "two_tasks_one_room": st.two_tasks_one_room,
+                        "max_tasks": st.max_tasks, "harness_sync_broken": broken}) }
+}
+async fn run_conn_fixed(sh: &Shared, kind: &str, max: usize, evs: &[CEv]) -> Case {
+    let mut sim = ConnSim::new(max);
+    let mut obs = vec![]; let mut st = CStats::default();
+    for e in evs { conn_event(&mut sim, sh, e, &mut obs, &mut st).await; }
+    sim.shutdown().await;
+    conn_case(kind, max, evs, obs, &st, sim.broken)
+}
+/// online generation; at the end every task is finished and a fresh connection asks for every room, one at a time
+async fn run_conn_random(sh: &Shared, rng: &mut Rng, careless_ends: bool) -> Case {
+    let max = 1 + rng.below(2) as usize;
+    let nconn = 1 + rng.below(3);
+    let nrooms = 1 + rng.below(3);
+    let len = 4 + rng.below(12) as usize;
+    let mut sim = ConnSim::new(max);
+    let mut obs = vec![]; let mut st = CStats::default(); let mut evs = vec![];
+    let mut script: VecDeque<CEv> = VecDeque::new();
+    for _ in 0..len {
+        let with_inbox: Vec<u64> = sim.conns.iter().filter(|(_, s)| !s.ended && !s.inbox.is_empty()).map(|(c, _)| *c).collect();
+        let running = sim.tasks();
+        let roll = rng.below(100);
+        let e = if let Some(e) = script.pop_front() { e } else if roll < 30 || (with_inbox.is_empty() && running.is_empty() && roll < 85) {
+            CEv::Request(1 + rng.below(nconn), gen_rooms(rng, nrooms))
+        } else if roll < 58 && !with_inbox.is_empty() { CEv::Take(*rng.pick(&with_inbox)) }
+        else if roll < 85 && !running.is_empty() { let (c, r) = *rng.pick(&running); CEv::Finish(c, r) }
+        else if roll < 95 {
+            let c = 1 + rng.below(nconn);
+            let idle = sim.conns.get(&c).map(|s| s.inbox.is_empty() && s.running.is_empty()).unwrap_or(true);
+            if idle || careless_ends { CEv::End(c) } else { CEv::Take(c) }
+        } else { match rng.below(3) { 0 => CEv::Take(1 + rng.below(nconn)), 1 => CEv::Finish(1 + rng.below(nconn), 1 + rng.below(nrooms)), _ => CEv::Request(1 + rng.below(nconn), vec![]) } };
+        // a connection that ends while its task runs: sometimes the room is wanted by two others right away
+        if let CEv::End(c) = &e {
+            let r = sim.conns.get(c).and_then(|s| if s.ended { None } else { s.running.first().map(|x| x.0) });
+            if let Some(r) = r { if rng.chance(1, 2) {
+                let c2 = 1 + (*c % 3); let c3 = 1 + (c2 % 3);
+                script.extend([CEv::Request(c2, vec![r]), CEv::Take(c2), CEv::Finish(*c, r), CEv::Request(c3, vec![r]), CEv::Take(c3)]);
+            } }
+        }
+        conn_event(&mut sim, sh, &e, &mut obs, &mut st).await;
+        evs.push(e);
+    }
+    for (c, r) in sim.tasks() { let e = CEv::Finish(c, r); conn_event(&mut sim, sh, &e, &mut obs, &mut st).await; evs.push(e); }
+    for r in 1..=nrooms {
+        for e in [CEv::Request(9, vec![r]), CEv::Take(9), CEv::Finish(9, r)] { conn_event(&mut sim, sh, &e, &mut obs, &mut st).await; evs.push(e); }
+    }
+    sim.shutdown().await;
+    conn_case(if careless_ends { "conn-random-any-end" } else { "conn-random-idle-end" }, max, &evs, obs, &st, sim.broken)
+}
+
 fn alphabet(small: bool) -> Vec<Msg> {
     let mut a = vec![];
     let room_sets: Vec<Vec<u64>> = if small { vec![vec![1], vec![1, 2]] } else { vec![vec![1], vec![2], vec![1, 2]] };
@@ -193,10 +404,41 @@ async fn main() {
         }
     }
     // ---- random histories ----
-    let nr = scale(1200, 12000);
+    let nr = scale(600, 12000);
     for i in 0..nr {
         let mut r = rng.fork();
         out.push(run_random(&mut r, i % 4 == 3).await);
     }
+    // ---- connection level ----
+    let sh = shared().await;
+    {
+        use CEv::*;
+        // K1 without any misbehaving caller: the connection ends while its room task runs
+        out.push(run_conn_fixed(&sh, "conn-directed-K1-end-while-task-runs", 1, &[Request(1, vec![5]), Take(1), End(1), Request(2, vec![5]), Take(2), Finish(1, 5), Request(3, vec![5]), Take(3), Finish(2, 5), Finish(3, 5)]).await);
+        // K2: a grant waits in the lock channel of a connection that ends
+        out.push(run_conn_fixed(&sh, "conn-directed-K2-grant-lost-at-end", 2, &[Request(1, vec![5]), End(1), Request(9, vec![5]), Request(9, vec![6]), Take(9), Finish(9, 6), Request(8, vec![5])]).await);
+        out.push(run_conn_fixed(&sh, "conn-directed-K2-slot-lost", 1, &[Request(1, vec![5]), End(1), Request(9, vec![6]), Request(8, vec![7])]).await);
+        // ends of idle connections release everything
+        out.push(run_conn_fixed(&sh, "conn-directed-idle-end", 2, &[Request(1, vec![5, 6]), Take(1), Take(1), Request(2, vec![5, 7]), Finish(1, 6), Take(2), Finish(1, 5), End(1), Take(2), Finish(2, 5), Finish(2, 7), End(2), Request(9, vec![5]), Take(9), Finish(9, 5), Request(9, vec![6]), Request(1, vec![7])]).await);
+        // end while a task runs, but nobody wants the room before the task ends: harmless
+        out.push(run_conn_fixed(&sh, "conn-directed-end-with-task-harmless", 1, &[Request(1, vec![5]), Take(1), End(1), Finish(1, 5), Request(2, vec![5]), Take(2), Finish(2, 5)]).await);
+        // exhaustive over a small alphabet
+        let alpha = vec![Request(1, vec![1]), Request(2, vec![1]), Request(2, vec![1, 2]), Take(1), Take(2), Finish(1, 1), Finish(2, 1), End(1)];
+        let depth = if tier_thorough() { 5usize } else { 3usize };
+        let n = alpha.len(); let mut total = 1usize; for _ in 0..depth { total *= n; }
+        for code in 0..total {
+            let mut x = code; let mut evs = vec![];
+            for _ in 0..depth { evs.push(alpha[x % n].clone()); x /= n; }
+            // probe: what is held is finished, then a fresh connection asks for the room
+            evs.extend([Finish(1, 1), Finish(2, 1), Finish(2, 2), Request(9, vec![1]), Take(9), Finish(9, 1)]);
+            out.push(run_conn_fixed(&sh, "conn-exhaustive", 1, &evs).await);
+        }
+    }
+    let nc = scale(200, 3000);
+    for i in 0..nc {
+        let mut r = rng.fork();
+        out.push(run_conn_random(&sh, &mut r, i % 3 == 2).await);
+    }
+    let p = sh.path.clone(); drop(sh); let _ = std::fs::remove_dir_all(&p);
     out.finish();
 }
